@@ -919,7 +919,7 @@ func (g *c16Gen) bufGenV2() map[string]any {
 		var inputs []any
 		for i := 0; i < 1+g.r.IntN(3); i++ {
 			in := map[string]any{}
-			kind := g.pick([]string{"module", "directory", "proto_file", "tarball", "zip_archive", "binary_image", "json_image", "text_image", "yaml_image", "git_repo"})
+			kind := g.pick([]string{"module", "directory", "proto_file", "tarball", "zip_archive", "binary_image", "json_image", "text_image", "yaml_image", "git_repo", "git_repo"})
 			g.doc.feat("input-" + kind)
 			switch kind {
 			case "module":
@@ -952,19 +952,24 @@ func (g *c16Gen) bufGenV2() map[string]any {
 				}
 			case "git_repo":
 				in[kind] = g.pick([]string{"https://github.com/acme/x.git", "ssh://git@github.com/acme/x"})
-				switch g.r.IntN(5) {
+				switch g.r.IntN(6) {
 				case 0:
 					in["branch"] = "main"
+					g.doc.feat("git-branch")
 				case 1:
 					in["tag"] = "v1.2.3"
 					g.doc.feat("git-tag")
 				case 2:
 					in["commit"] = c16Hex(g.r, 40)
+					g.doc.feat("git-commit")
 				case 3:
 					in["ref"] = "refs/pull/3/head"
-					if g.chance(1, 2) {
-						in["branch"] = "main"
-					}
+					g.doc.feat("git-ref")
+				case 4:
+					// the one valid combination of two reference keys
+					in["ref"] = g.pick([]string{"refs/pull/3/head", c16Hex(g.r, 40), "v1.2.3~1"})
+					in["branch"] = g.pick([]string{"main", "release/v1"})
+					g.doc.feat("git-ref+branch")
 				}
 				if g.chance(1, 3) {
 					in["depth"] = g.r.IntN(4)
